@@ -322,6 +322,8 @@ class Impl:
                 if getattr(cells, 'ndim', 1) == 1:          # (namesakes share a row label: not read)
                     rows[key] = [str(x) for x in cells]
             rows['Total'] = [str(x) for x in df.loc['Total']]
+            from pyplate.pyplate import config
+            rows['__precisions__'] = {str(k): int(v) for k, v in dict(config.precisions).items()}
             return rows
         except Exception as e:  # noqa
             return {'error': f"{type(e).__name__}: {e}"[:160]}
